@@ -27,14 +27,14 @@ type codecSpec struct {
 }
 
 type codecVerdict struct {
-	spec    codecSpec
-	nCfg    int
-	nRej    int
-	de, se  map[string]string
-	irr     map[string]string
-	err     string
-	facts   map[string]map[string]string
-	dom     map[string]map[string]bool
+	spec     codecSpec
+	nCfg     int
+	nRej     int
+	de, se   map[string]string
+	irr      map[string]string
+	err      string
+	facts    map[string]map[string]string
+	dom      map[string]map[string]bool
 	dontcare map[string]bool
 }
 
